@@ -191,3 +191,125 @@ Definition guard_tensor_ttm (s : vec) (ms : list shp2) (dims excl : option vec) 
 (* element-wise binary operation of two dense tensors (numpy broadcasting decides) *)
 Definition pre_tensor_binop (s u : vec) : bool := shape_eqb s u.
 Definition guard_tensor_binop (s u : vec) : res unit := chk (np_broadcast_ok s u).
+
+Definition c19_pre_agrees (p : bool) (rejected : bool) : bool := Bool.eqb (negb p) rejected.
+
+(* ======================================================================================== *)
+(* shared shapes of request: "two operands of the same shape", "a permutation of the modes"   *)
+(* ======================================================================================== *)
+Definition pre_same_shape (s u : vec) : bool := shape_eqb s u.
+Definition guard_same_shape (s u : vec) : res unit := chk (shape_eqb s u).       (* "self.shape != other.shape" *)
+
+Definition pre_perm (s order : vec) : bool := is_permb (ndim s) order.
+(* "sorted(order) == range(ndims)" as sptensor/ktensor/ttensor.permute and the dimorder checks do it *)
+Definition guard_sorted_perm (s order : vec) : res unit := chk (shape_eqb (np_sort order) (np_arange 0 (ndim s))).
+
+Definition pre_mode (s : vec) (n : Z) : bool := in_range (ndim s) n.
+Definition pre_modes (s d : vec) : bool := modes_ok (ndim s) d.
+Definition pre_reshape (s new : vec) : bool := zprod s =? zprod new.
+Definition pre_ttv := pre_tensor_ttv.
+Definition pre_ttm := pre_tensor_ttm.
+
+(* sptensor.innerprod: an empty receiver answers 0 before looking at the other operand *)
+Definition guard_sptensor_innerprod (s : vec) (empty : bool) (u : vec) : res unit :=
+  if empty then Ok tt else chk (shape_eqb s u).
+Definition pre_sptensor_innerprod (s : vec) (empty : bool) (u : vec) : bool := shape_eqb s u.
+
+(* mttkrp(U, n): one matrix per mode, U[i] has shape[i] rows (i <> n), all the same column count *)
+Definition pre_mttkrp (s : vec) (us : list shp2) (n : Z) : bool :=
+  let N := ndim s in
+  let R := cols (shp2_d us (if n =? 0 then 1 else 0)) in
+  (2 <=? N) && (zlen us =? N) && in_range N n &&
+  forallb (fun iu => (fst iu =? n) || ((rows (snd iu) =? sz s (fst iu)) && (cols (snd iu) =? R)))
+          (combine (np_arange 0 N) us).
+
+(* to_tenmat(rdims, cdims) / tenmat(data, rdims, cdims, tshape) / sptenmat(subs, vals, rdims, cdims, tshape) *)
+Definition pre_to_tenmat (s rd cd : vec) : bool := is_permb (ndim s) (rd ++ cd).
+Definition pre_tenmat_ctor (dshape : shp2) (rd cd ts : vec) : bool :=
+  is_permb (ndim ts) (rd ++ cd) && (rows dshape =? zprod (pickz ts rd)) && (cols dshape =? zprod (pickz ts cd)).
+Definition pre_sptenmat_ctor (maxrow maxcol : Z) (rd cd ts : vec) : bool :=
+  is_permb (ndim ts) (rd ++ cd) && (maxrow <? zprod (pickz ts rd)) && (maxcol <? zprod (pickz ts cd)).
+(* the code: ">=" instead of ">" (A-44) *)
+Definition guard_sptenmat_ctor (maxrow maxcol : Z) (rd cd ts : vec) : res unit :=
+  chk ((zlen (rd ++ cd) =? ndim ts) && shape_eqb (np_sort (rd ++ cd)) (np_arange 0 (ndim ts))) ;;
+  chk (maxrow <=? zprod (pickz ts rd)) ;; chk (maxcol <=? zprod (pickz ts cd)).
+Definition pre_tenmat_mul (a b : shp2) : bool := cols a =? rows b.
+Definition guard_tenmat_mul (a b : shp2) : res unit := chk (cols a =? rows b).
+
+(* T.scale(factor, dims): factor has the shape of the listed modes *)
+Definition pre_scale (s fshape d : vec) : bool := modes_ok (ndim s) d && shape_eqb fshape (pickz s d).
+(* T.collapse(dims) *)
+Definition pre_collapse (s d : vec) : bool := modes_ok (ndim s) d.
+(* T.ttt(U, selfdims, otherdims) *)
+Definition pre_ttt (s u sd od : vec) : bool :=
+  modes_ok (ndim s) sd && modes_ok (ndim u) od && shape_eqb (pickz s sd) (pickz u od).
+(* linear index assignment T[k] = v *)
+Definition pre_linear_index (s : vec) (k : Z) : bool := in_range (zprod s) k.
+(* S.extract(subs) / sptensor(subs, vals, shape): every subscript row has one entry per mode, inside the shape *)
+Definition sub_ok (s row : vec) : bool := (zlen row =? ndim s) && forallb (fun p => in_range (snd p) (fst p)) (combine row s).
+Definition pre_subs (s : vec) (subs : list vec) : bool := forallb (sub_ok s) subs.
+Definition pre_sptensor_ctor (s : vec) (subs : list vec) (nvals : Z) : bool := pre_subs s subs && (nvals =? zlen subs).
+
+(* ktensor(factor_matrices, weights) *)
+Definition all_cols (ms : list shp2) (R : Z) : bool := forallb (fun m => cols m =? R) ms.
+Definition pre_ktensor_ctor (ms : list shp2) (wlen : option Z) : bool :=
+  let R := cols (shp2_d ms 0) in all_cols ms R && match wlen with None => true | Some w => w =? R end.
+Definition guard_ktensor_ctor (ms : list shp2) (wlen : option Z) : res unit :=
+  let R := cols (shp2_d ms 0) in
+  chk (all_cols ms R) ;; match wlen with None => Ok tt | Some w => chk (w =? R) end.
+(* K.arrange(permutation=p): R components *)
+Definition pre_ktensor_arrange (R : Z) (p : vec) : bool := is_permb R p.
+Definition guard_ktensor_arrange (R : Z) (p : vec) : res unit :=
+  chk (zlen p =? R) ;; chk (forallb (np_idx_ok R) p).        (* only the length is compared; numpy checks the index range *)
+(* K.extract(idx) *)
+Definition pre_ktensor_extract (R : Z) (idx : vec) : bool := (1 <=? zlen idx) && (zlen idx <=? R) && forallb (in_range R) idx.
+Definition guard_ktensor_extract (R : Z) (idx : vec) : res unit :=
+  chk (negb ((zlen idx =? 0) || (R <? zlen idx))) ;; chk (forallb (in_range R) idx).
+(* ttensor(core, factors) *)
+Definition pre_ttensor_ctor (core : vec) (ms : list shp2) : bool :=
+  (zlen ms =? ndim core) && forallb (fun p => cols (fst p) =? snd p) (combine ms core).
+Definition guard_ttensor_ctor (core : vec) (ms : list shp2) : res unit :=
+  chk (ndim core =? zlen ms) ;; chk_all (fun p => chk (cols (fst p) =? snd p)) (combine ms core).
+(* sumtensor(parts): all parts have the shape of the first *)
+Definition pre_all_same_shape (shapes : list vec) : bool :=
+  match shapes with [] => true | s :: r => forallb (shape_eqb s) r end.
+Definition guard_all_same_shape (shapes : list vec) : res unit :=
+  match shapes with [] => Ok tt | s :: r => chk (forallb (shape_eqb s) r) end.
+(* khatrirao(matrices) *)
+Definition pre_khatrirao (ms : list shp2) : bool := all_cols ms (cols (shp2_d ms 0)).
+Definition guard_khatrirao (ms : list shp2) : res unit := chk (all_cols ms (cols (shp2_d ms 0))).
+
+(* algorithm entry points: rank, initial guess, mode order *)
+Inductive initk := InitRandom | InitNvecs | InitBogus | InitK (shape : vec) (R : Z) | InitList (ms : list shp2).
+Definition factors_fit (s : vec) (ms : list shp2) (ranks : vec) (which : vec) : bool :=
+  forallb (fun n => (rows (shp2_d ms n) =? sz s n) && (cols (shp2_d ms n) =? sz ranks n)) which.
+Definition pre_cp_init (s : vec) (rank : Z) (init : initk) (allow_nvecs : bool) : bool :=
+  match init with
+  | InitRandom => true
+  | InitNvecs => allow_nvecs
+  | InitBogus => false
+  | InitK ks R => shape_eqb ks s && (R =? rank)
+  | InitList _ => false
+  end.
+Definition pre_cp_als (s : vec) (rank : Z) (init : initk) (dimorder : option vec) : bool :=
+  (0 <? rank) && pre_cp_init s rank init true && match dimorder with None => true | Some o => is_permb (ndim s) o end.
+Definition pre_cp_apr (s : vec) (rank : Z) (init : initk) (alg_ok : bool) : bool :=
+  (0 <? rank) && pre_cp_init s rank init false && alg_ok.
+Definition pre_hosvd (s : vec) (ranks : option vec) (dimorder : option vec) : bool :=
+  match ranks with None => true | Some r => (zlen r =? ndim s) && forallb (fun p => (1 <=? fst p) && (fst p <=? snd p)) (combine r s) end &&
+  match dimorder with None => true | Some o => is_permb (ndim s) o end.
+Definition pre_tucker_als (s : vec) (ranks : vec) (init : initk) (dimorder : option vec) (maxiters : Z) : bool :=
+  let N := ndim s in
+  let rk := if zlen ranks =? 1 then np_full N (sz ranks 0) else ranks in
+  (zlen rk =? N) && forallb (fun p => (1 <=? fst p) && (fst p <=? snd p)) (combine rk s) && (0 <=? maxiters) &&
+  match dimorder with None => true | Some o => is_permb N o end &&
+  match init with
+  | InitRandom | InitNvecs => true
+  | InitList ms => (zlen ms =? N) && factors_fit s ms rk (np_arange 0 N)
+  | _ => false
+  end.
+Definition pre_gcp_opt (s : vec) (rank : Z) (init : initk) (opt_ok : bool) : bool :=
+  (0 <? rank) && opt_ok && match init with InitRandom => true | InitK ks R => shape_eqb ks s && (R =? rank) | _ => false end.
+(* import_data: header says n modes, the shape line has k entries; data type word known *)
+Definition pre_import (type_ok : bool) (n k : Z) : bool := type_ok && (n =? k).
+Definition guard_import (type_ok : bool) (n k : Z) : res unit := chk type_ok ;; chk (k =? n).
